@@ -178,10 +178,32 @@ theorem cum_step (f : ℕ → K) (m : ℕ) (hm0 : m ≠ 0) : cum f m = cum f (m 
   obtain ⟨n, rfl⟩ : ∃ n, m = n + 1 := ⟨m - 1, by omega⟩
   rw [cum_succ, Nat.add_sub_cancel]
 
+/-- the supply clauses the two kinds of round share -/
+structure StockOK (i : Inp K) (a : Alloc K) : Prop where
+  nonneg : ∀ k m, 0 ≤ a.toVar (.mv k m)
+  stored : i.addStored = true →
+    (∀ m, m < i.nmonths → (i.storeBetweenYears = true ∨ m ≤ 12) →
+        cum (storedUse i a.toVar) m ≤ i.storedInitial) ∧
+    (i.storeBetweenYears = false → ∀ m, m < i.nmonths → 12 < m →
+        a.sfHumans m = 0 ∧ a.sfFeed m = 0 ∧ a.sfBiofuel m = 0)
+  crops : i.addOutdoor = true →
+    ∀ m, m < i.nmonths → cum (cropUse i a.toVar) m ≤ cum (at' i.cropProd) m
+  meatStored : i.addMeat = true → i.storeBetweenYears = true → ∀ m, m < i.nmonths →
+    cum (meatUse i a.toVar) m ≤ i.meatSummed ∧ cum (meatUse i a.toVar) m ≤ at' i.maxCulled m
+  meatFresh : i.addMeat = true → i.storeBetweenYears = false → ∀ m, m < i.nmonths →
+    meatUse i a.toVar m ≤ at' i.slaughtered m
+
+theorem stockOK_of_humans (ha : PhysFeasible i a) : StockOK i a :=
+  ⟨ha.nonneg, fun hon => ⟨(ha.stored hon).1, (ha.stored hon).2.2⟩, fun hon => (ha.crops hon).1,
+    ha.meatStored, ha.meatFresh⟩
+
+theorem stockOK_of_feed (ha : PhysFeasibleFeed i a) : StockOK i a :=
+  ⟨ha.nonneg, ha.stored, ha.crops, ha.meatStored, ha.meatFresh⟩
+
 /-- in both storage regimes the clauses bound the stored food drawn by the end of every month -/
-theorem stored_cum_le (ha : PhysFeasible i a) (hon : i.addStored = true) (hm : m < i.nmonths) :
+theorem stored_cum_le (ha : StockOK i a) (hon : i.addStored = true) (hm : m < i.nmonths) :
     cum (storedUse i a.toVar) m ≤ i.storedInitial := by
-  obtain ⟨h1, -, h3⟩ := ha.stored hon
+  obtain ⟨h1, h3⟩ := ha.stored hon
   by_cases hreg : i.storeBetweenYears = true ∨ m ≤ 12
   · exact h1 m hm hreg
   · have hs : i.storeBetweenYears = false := by
@@ -197,13 +219,77 @@ theorem stored_cum_le (ha : PhysFeasible i a) (hon : i.addStored = true) (hm : m
     rw [cum_eq_of_zero _ 12 m h12.le hz]
     exact h1 12 (by omega) (Or.inr le_rfl)
 
-theorem storedUse_nonneg_a (ha : PhysFeasible i a) (hw : i.wStored < 100) (k : Nat) :
+theorem storedUse_nonneg_a (ha : StockOK i a) (hw : i.wStored < 100) (k : Nat) :
     0 ≤ storedUse i a.toVar k :=
   add_nonneg (add_nonneg (grossUp_nonneg' hw (ha.nonneg .sfHumans k)) (ha.nonneg .sfFeed k))
     (ha.nonneg .sfBiofuel k)
 
-theorem meatUse_nonneg_a (ha : PhysFeasible i a) (hw : i.wMeat < 100) (k : Nat) :
+theorem meatUse_nonneg_a (ha : StockOK i a) (hw : i.wMeat < 100) (k : Nat) :
     0 ≤ meatUse i a.toVar k := grossUp_nonneg' hw (ha.nonneg .meatEaten k)
+
+/-- the decision variables and the reconstructed stock variables are non-negative -/
+theorem stock_nonneg (ha : StockOK i a) (hw : i.wStored < 100 ∧ i.wCrop < 100 ∧ i.wMeat < 100)
+    (k : VK) (hk : k ≠ .consumedKcals) (m : Nat) : 0 ≤ pointOf i a (.mv k m) := by
+  cases k
+  case sfStart =>
+    rw [po_sfStart]
+    split_ifs with hc hm0
+    · have := stored_cum_le (m := 0) ha hc.1 (by omega)
+      rw [cum_zero] at this
+      exact le_trans (storedUse_nonneg_a ha hw.1 0) this
+    · have := stored_cum_le (m := m - 1) ha hc.1 (by omega)
+      linarith
+    · exact le_rfl
+  case sfEnd =>
+    rw [po_sfEnd]
+    split_ifs with hc
+    · have := stored_cum_le ha hc.1 hc.2
+      linarith
+    · exact le_rfl
+  case meatStart =>
+    rw [po_meatStart]
+    split_ifs with hc hm0
+    · have := (ha.meatStored hc.1.1 hc.1.2 0 (by omega)).1
+      rw [cum_zero] at this
+      exact le_trans (meatUse_nonneg_a ha hw.2.2 0) this
+    · have := (ha.meatStored hc.1.1 hc.1.2 (m - 1) (by omega)).1
+      linarith
+    · exact le_rfl
+  case meatEnd =>
+    rw [po_meatEnd]
+    split_ifs with hc
+    · have := (ha.meatStored hc.1.1 hc.1.2 m hc.2).1
+      linarith
+    · exact le_rfl
+  case cropStorage =>
+    rw [po_cropStorage]
+    split_ifs with hc
+    · have := ha.crops hc.1 m hc.2
+      linarith
+    · exact le_rfl
+  case cropConsumed =>
+    rw [po_cropConsumed]
+    exact add_nonneg (add_nonneg (grossUp_nonneg' hw.2.1 (ha.nonneg .cropHumans m))
+      (ha.nonneg .cropBiofuel m)) (ha.nonneg .cropFeed m)
+  case consumedKcals => exact absurd rfl hk
+  case sfHumans => exact ha.nonneg .sfHumans m
+  case sfFeed => exact ha.nonneg .sfFeed m
+  case sfBiofuel => exact ha.nonneg .sfBiofuel m
+  case cropHumans => exact ha.nonneg .cropHumans m
+  case cropFeed => exact ha.nonneg .cropFeed m
+  case cropBiofuel => exact ha.nonneg .cropBiofuel m
+  case scpHumans => exact ha.nonneg .scpHumans m
+  case scpFeed => exact ha.nonneg .scpFeed m
+  case scpBiofuel => exact ha.nonneg .scpBiofuel m
+  case csHumans => exact ha.nonneg .csHumans m
+  case csFeed => exact ha.nonneg .csFeed m
+  case csBiofuel => exact ha.nonneg .csBiofuel m
+  case meatEaten => exact ha.nonneg .meatEaten m
+  case swHumans => exact ha.nonneg .swHumans m
+  case swFeed => exact ha.nonneg .swFeed m
+  case swBiofuel => exact ha.nonneg .swBiofuel m
+  case swWet => exact ha.nonneg .swWet m
+  case usedArea => exact ha.nonneg .usedArea m
 
 theorem pointOf_nonneg (ha : PhysFeasible i a) (hN : 2 ≤ i.nmonths)
     (hw : i.wStored < 100 ∧ i.wCrop < 100 ∧ i.wMeat < 100) : ∀ v, 0 ≤ pointOf i a v := by
@@ -213,70 +299,101 @@ theorem pointOf_nonneg (ha : PhysFeasible i a) (hN : 2 ≤ i.nmonths)
     exact le_minOver _ _ (by omega) _ (fun m hm => ha.pctNonneg m hm)
   | objectiveBest => exact le_rfl
   | mv k m =>
-    cases k
-    case sfStart =>
-      rw [po_sfStart]
-      split_ifs with hc hm0
-      · have := stored_cum_le (m := 0) ha hc.1 (by omega)
-        rw [cum_zero] at this
-        exact le_trans (storedUse_nonneg_a ha hw.1 0) this
-      · have := stored_cum_le (m := m - 1) ha hc.1 (by omega)
-        linarith
-      · exact le_rfl
-    case sfEnd =>
-      rw [po_sfEnd]
-      split_ifs with hc
-      · have := stored_cum_le ha hc.1 hc.2
-        linarith
-      · exact le_rfl
-    case meatStart =>
-      rw [po_meatStart]
-      split_ifs with hc hm0
-      · have := (ha.meatStored hc.1.1 hc.1.2 0 (by omega)).1
-        rw [cum_zero] at this
-        exact le_trans (meatUse_nonneg_a ha hw.2.2 0) this
-      · have := (ha.meatStored hc.1.1 hc.1.2 (m - 1) (by omega)).1
-        linarith
-      · exact le_rfl
-    case meatEnd =>
-      rw [po_meatEnd]
-      split_ifs with hc
-      · have := (ha.meatStored hc.1.1 hc.1.2 m hc.2).1
-        linarith
-      · exact le_rfl
-    case cropStorage =>
-      rw [po_cropStorage]
-      split_ifs with hc
-      · have := (ha.crops hc.1).1 m hc.2
-        linarith
-      · exact le_rfl
-    case cropConsumed =>
-      rw [po_cropConsumed]
-      exact add_nonneg (add_nonneg (grossUp_nonneg' hw.2.1 (ha.nonneg .cropHumans m))
-        (ha.nonneg .cropBiofuel m)) (ha.nonneg .cropFeed m)
-    case consumedKcals =>
+    by_cases hk : k = .consumedKcals
+    · subst hk
       rw [po_consumed]
       split_ifs with hc
       · exact ha.pctNonneg m hc
       · exact le_rfl
-    case sfHumans => exact ha.nonneg .sfHumans m
-    case sfFeed => exact ha.nonneg .sfFeed m
-    case sfBiofuel => exact ha.nonneg .sfBiofuel m
-    case cropHumans => exact ha.nonneg .cropHumans m
-    case cropFeed => exact ha.nonneg .cropFeed m
-    case cropBiofuel => exact ha.nonneg .cropBiofuel m
-    case scpHumans => exact ha.nonneg .scpHumans m
-    case scpFeed => exact ha.nonneg .scpFeed m
-    case scpBiofuel => exact ha.nonneg .scpBiofuel m
-    case csHumans => exact ha.nonneg .csHumans m
-    case csFeed => exact ha.nonneg .csFeed m
-    case csBiofuel => exact ha.nonneg .csBiofuel m
-    case meatEaten => exact ha.nonneg .meatEaten m
-    case swHumans => exact ha.nonneg .swHumans m
-    case swFeed => exact ha.nonneg .swFeed m
-    case swBiofuel => exact ha.nonneg .swBiofuel m
-    case swWet => exact ha.nonneg .swWet m
-    case usedArea => exact ha.nonneg .usedArea m
+    · exact stock_nonneg (stockOK_of_humans ha) hw k hk m
+
+/-! ### the ledgers of the reconstructed point -/
+
+theorem storedEaten_pointOf (hon : i.addStored = true) (k : Nat) (hk : k < i.nmonths) :
+    StoredEatenEq i (pointOf i a) k := by
+  have hu : ∀ k, storedUse i a.toVar k
+      = grossUp (a.sfHumans k) i.wStored + a.sfFeed k + a.sfBiofuel k := fun k => rfl
+  have hk1 : k - 1 < i.nmonths := by omega
+  unfold StoredEatenEq
+  simp only [po_sfStart, po_sfEnd, po_sfHumans, po_sfFeed, po_sfBiofuel, hon, hk, true_and, if_true]
+  by_cases hk0 : k = 0
+  · subst hk0
+    simp only [if_true, cum_zero, hu]; ring
+  · simp only [hk0, if_false]
+    rw [cum_step _ k hk0, hu]; ring
+
+theorem sfStart_succ_pointOf (hon : i.addStored = true) (hm : m < i.nmonths) (hm0 : m ≠ 0) :
+    pointOf i a (.mv .sfStart m) = pointOf i a (.mv .sfEnd (m - 1)) := by
+  have hm1 : m - 1 < i.nmonths := by omega
+  simp only [po_sfStart, po_sfEnd, hon, hm, hm1, true_and, if_true, hm0, if_false]
+
+theorem sfStart_zero_pointOf (hon : i.addStored = true) (hN0 : 0 < i.nmonths) :
+    pointOf i a (.mv .sfStart 0) = i.storedInitial := by
+  simp only [po_sfStart, hon, hN0, true_and, if_true]
+
+theorem storedSpecA_pointOf (ha : StockOK i a) (hon : i.addStored = true) (hm : m < i.nmonths) :
+    StoredSpecA i (pointOf i a) m := by
+  obtain ⟨-, hzero⟩ := ha.stored hon
+  have hN0 : 0 < i.nmonths := by omega
+  unfold StoredSpecA
+  cases hsb : i.storeBetweenYears
+  · simp only [Bool.false_eq_true, if_false]
+    by_cases hm0 : m = 0
+    · subst hm0
+      simp only [if_true]
+      exact ⟨sfStart_zero_pointOf hon hm, storedEaten_pointOf hon 0 hm⟩
+    · simp only [hm0, if_false]
+      split_ifs with h12
+      · obtain ⟨e1, e2, e3⟩ := hzero hsb m hm h12
+        exact ⟨e1, e2, e3, sfStart_succ_pointOf hon hm hm0⟩
+      · exact ⟨storedEaten_pointOf hon m hm, sfStart_succ_pointOf hon hm hm0⟩
+  · simp only [if_true]
+    refine ⟨?_, storedEaten_pointOf hon m hm⟩
+    by_cases hm0 : m = 0
+    · subst hm0
+      simp only [if_true]
+      exact sfStart_zero_pointOf hon hm
+    · simp only [hm0, if_false]
+      exact sfStart_succ_pointOf hon hm hm0
+
+theorem cropSpecA_pointOf (hon : i.addOutdoor = true) (hm : m < i.nmonths) :
+    CropSpecA i (pointOf i a) m := by
+  unfold CropSpecA
+  have hm1 : m - 1 < i.nmonths := by omega
+  simp only [po_cropHumans, po_cropFeed, po_cropBiofuel, po_cropStorage, po_cropConsumed, hon, hm,
+    hm1, true_and, if_true]
+  have hu : ∀ k, cropUse i a.toVar k
+      = grossUp (a.cropHumans k) i.wCrop + a.cropBiofuel k + a.cropFeed k := by
+    intro k
+    show grossUp (a.cropHumans k) i.wCrop + a.cropFeed k + a.cropBiofuel k = _
+    ring
+  by_cases hm0 : m = 0
+  · subst hm0
+    simp only [if_true, cum_zero, hu]
+  · simp only [hm0, if_false]
+    rw [cum_step (cropUse i a.toVar) m hm0, cum_step (at' i.cropProd) m hm0, hu]; ring
+
+theorem meatSpec_pointOf (ha : StockOK i a) (hon : i.addMeat = true) (hm : m < i.nmonths) :
+    MeatSpec i (pointOf i a) m := by
+  have hm1 : m - 1 < i.nmonths := by omega
+  have hN0 : 0 < i.nmonths := by omega
+  unfold MeatSpec
+  cases hsb : i.storeBetweenYears
+  · simp only [Bool.false_eq_true, if_false]
+    exact ha.meatFresh hon hsb m hm
+  · simp only [if_true, po_meatStart, po_meatEnd, hon, hsb, hm, hm1, hN0, and_self, true_and]
+    rw [meatUse_pointOf]
+    refine ⟨?_, ?_, ?_⟩
+    · by_cases hm0 : m = 0
+      · simp only [hm0, if_true]
+      · simp only [hm0, if_false]
+    · by_cases hm0 : m = 0
+      · subst hm0
+        simp only [if_true, cum_zero]
+      · simp only [hm0, if_false]
+        rw [cum_step _ m hm0]; ring
+    · have := (ha.meatStored hon hsb m hm).2
+      linarith
 
 theorem intakeSpec_of_ok (ha : PhysFeasible i a) (hm : m < i.nmonths) (on : Bool) (ratio : K)
     (vH vF vB : VK) (limH limF limB : K)
@@ -359,27 +476,7 @@ theorem humanSpec_pointOf (ha : PhysFeasible i a) (hN : 2 ≤ i.nmonths)
           simp only [po_sfEnd, hon, hm, true_and, if_true]
           rw [hl, hfull hsb, sub_self]
         · exact hS hm0
-  meat := by
-    intro hon m hm
-    have hm1 : m - 1 < i.nmonths := by omega
-    have hN0 : 0 < i.nmonths := by omega
-    unfold MeatSpec
-    cases hsb : i.storeBetweenYears
-    · simp only [Bool.false_eq_true, if_false]
-      exact ha.meatFresh hon hsb m hm
-    · simp only [if_true, po_meatStart, po_meatEnd, hon, hsb, hm, hm1, hN0, and_self, true_and]
-      rw [meatUse_pointOf]
-      refine ⟨?_, ?_, ?_⟩
-      · by_cases hm0 : m = 0
-        · simp only [hm0, if_true]
-        · simp only [hm0, if_false]
-      · by_cases hm0 : m = 0
-        · subst hm0
-          simp only [if_true, cum_zero]
-        · simp only [hm0, if_false]
-          rw [cum_step _ m hm0]; ring
-      · have := (ha.meatStored hon hsb m hm).2
-        linarith
+  meat := fun hon m hm => meatSpec_pointOf (stockOK_of_humans ha) hon hm
   scp := fun hon m hm => ha.scp hon m hm
   cs := fun hon m hm => ha.cs hon m hm
   general := by
@@ -440,5 +537,177 @@ theorem lp_bound_iff_true_bound (i : Inp K) (hN : 2 ≤ i.nmonths)
   · intro h x hx
     obtain ⟨h1, h2⟩ := sound_humans i x hN hx
     exact le_trans h2 (h _ h1)
+
+/-! ## the feed-maximising round -/
+
+section Animals
+variable {i : Inp K} {a : Alloc K} {x : Var → K} {m : Nat}
+
+theorem feedValue_eq (i : Inp K) (a : Alloc K) : feedValue i a = feedObjective i a.toVar := by
+  unfold feedValue feedObjective
+  norm_num
+
+theorem feedObjective_allocOf (i : Inp K) (x : Var → K) :
+    feedObjective i (allocOf x).toVar = feedObjective i x := rfl
+
+theorem pinned_iff (i : Inp K) (v c : K) : Pinned i v c ↔ PinSpec i v c := Iff.rfl
+
+theorem sound_animals (i : Inp K) (x : Var → K) (h : Feasible (buildLP i .toAnimals) x) :
+    PhysFeasibleFeed i (allocOf x) ∧ x .objective ≤ feedValue i (allocOf x) := by
+  have hs := feasible_toAnimals_iff.mp h
+  have hobj : x .objective ≤ feedValue i (allocOf x) := by
+    rw [feedValue_eq, feedObjective_allocOf]; exact hs.objective
+  refine ⟨⟨?_, ?_, ?_, ?_, ?_, ?_, ?_, ?_, ?_, ?_, ?_, ?_, ?_, ?_, ?_, ?_, ?_, ?_, ?_⟩, hobj⟩
+  · intro k m
+    cases k <;> first | exact h.2 _ | exact le_rfl
+  · intro hon
+    exact ⟨fun m hm _ => stored_cumulative (x := x) h hon hm,
+      fun hsb m hm h12 => stored_vars_zero (x := x) h hon hsb hm h12⟩
+  · intro hon m hm
+    exact crop_cumulative (x := x) h hon hm
+  · intro hon hsb m hm
+    exact ⟨meat_total (x := x) h hon hsb hm, meat_cumulative_cap (x := x) h hon hsb hm⟩
+  · intro hon hsb m hm
+    exact meat_monthly (x := x) h hon hsb hm
+  · intro hon m hm
+    exact scp_cap (x := x) h hon hm
+  · intro hon m hm
+    exact cs_cap (x := x) h hon hm
+  · intro hon m hm
+    exact (hs.seaweed hon m hm).1
+  · intro hany m hm
+    exact (hs.general m hm).1 hany
+  · intro hon m hm
+    exact (hs.seaweed hon m hm).2
+  · intro hon m hm
+    exact (hs.crops hon m hm).2
+  · intro hon m hm
+    exact (hs.stored hon m hm).2
+  · intro hon m hm
+    exact (hs.meat hon m hm).2
+  · intro hon m hm
+    exact (hs.scp hon m hm).2
+  · intro hon m hm
+    exact (hs.cs hon m hm).2
+  · intro m hm
+    exact (hs.general m hm).2.1
+  · intro m hm
+    exact (hs.general m hm).2.2.1
+  · intro m hm
+    exact (hs.general m hm).2.2.2
+  · exact le_trans (h.2 _) hobj
+
+/-- the point of the feed-maximising LP that carries the allocation `a`: stock variables as in
+    `pointOf`, the objective the weighted total, `Humans_Fed_Kcals` (in no row) 0 -/
+def pointOfA (i : Inp K) (a : Alloc K) : Var → K
+  | .objective => feedValue i a
+  | .mv .consumedKcals _ => 0
+  | v => pointOf i a v
+
+theorem pointOfA_mv (k : VK) (hk : k ≠ .consumedKcals) (m : Nat) :
+    pointOfA i a (.mv k m) = pointOf i a (.mv k m) := by
+  cases k <;> first | rfl | exact absurd rfl hk
+
+theorem allocOf_pointOfA (i : Inp K) (a : Alloc K) : allocOf (pointOfA i a) = a := rfl
+
+theorem animalSpec_pointOfA (ha : PhysFeasibleFeed i a)
+    (hw : i.wStored < 100 ∧ i.wCrop < 100 ∧ i.wMeat < 100) : AnimalSpec i (pointOfA i a) where
+  nonneg := by
+    intro v
+    cases v with
+    | objective => exact ha.valueNonneg
+    | objectiveBest => exact le_rfl
+    | mv k m =>
+      by_cases hk : k = .consumedKcals
+      · subst hk; exact le_rfl
+      · rw [pointOfA_mv k hk]; exact stock_nonneg (stockOK_of_feed ha) hw k hk m
+  seaweed := fun hon m hm => ⟨ha.seaweed hon m hm, ha.pinSeaweed hon m hm⟩
+  crops := fun hon m hm => ⟨cropSpecA_pointOf hon hm, ha.pinCrops hon m hm⟩
+  stored := fun hon m hm => ⟨storedSpecA_pointOf (stockOK_of_feed ha) hon hm, ha.pinStored hon m hm⟩
+  meat := fun hon m hm => ⟨meatSpec_pointOf (stockOK_of_feed ha) hon hm, ha.pinMeat hon m hm⟩
+  scp := fun hon m hm => ⟨ha.scp hon m hm, ha.pinScp hon m hm⟩
+  cs := fun hon m hm => ⟨ha.cs hon m hm, ha.pinCs hon m hm⟩
+  general := fun m hm =>
+    ⟨fun hany => ha.ceilings hany m hm, ha.shareSeaweed m hm, ha.shareScp m hm, ha.shareCs m hm⟩
+  objective := by
+    show feedValue i a ≤ feedObjective i (pointOfA i a)
+    rw [feedValue_eq]
+    exact le_of_eq rfl
+
+theorem complete_animals (i : Inp K) (a : Alloc K)
+    (hw : i.wStored < 100 ∧ i.wCrop < 100 ∧ i.wMeat < 100) (ha : PhysFeasibleFeed i a) :
+    ∃ x, Feasible (buildLP i .toAnimals) x ∧ allocOf x = a ∧ x .objective = feedValue i a :=
+  ⟨pointOfA i a, feasible_toAnimals_iff.mpr (animalSpec_pointOfA ha hw), rfl, rfl⟩
+
+/-- the objective values the feed-maximising LP can achieve are exactly the numbers between 0 and
+    the weighted feed-and-biofuel total of a physically feasible allocation -/
+theorem feed_optimum_is_true_optimum (i : Inp K)
+    (hw : i.wStored < 100 ∧ i.wCrop < 100 ∧ i.wMeat < 100) (z : K) :
+    (∃ x, Feasible (buildLP i .toAnimals) x ∧ x .objective = z) ↔
+    (∃ a, PhysFeasibleFeed i a ∧ 0 ≤ z ∧ z ≤ feedValue i a) := by
+  constructor
+  · rintro ⟨x, hx, rfl⟩
+    obtain ⟨h1, h2⟩ := sound_animals i x hx
+    exact ⟨allocOf x, h1, hx.2 _, h2⟩
+  · rintro ⟨a, ha, hz0, hz⟩
+    have hs := animalSpec_pointOfA ha hw
+    refine ⟨fun v => if v = .objective then z else pointOfA i a v, ?_, by simp only [if_true]⟩
+    rw [feasible_toAnimals_iff]
+    refine hs.of_agree (fun k m => by simp only [reduceCtorEq, if_false]) ?_ ?_ ?_
+    · simp only [if_true]; exact hz0
+    · simp only [reduceCtorEq, if_false]; exact le_rfl
+    · simp only [if_true]
+      refine le_trans hz ?_
+      rw [feedValue_eq]
+      exact le_of_eq rfl
+
+/-- a number bounds the feed-maximising LP's objective iff it bounds the weighted total of every
+    physically feasible allocation -/
+theorem feed_bound_iff_true_bound (i : Inp K)
+    (hw : i.wStored < 100 ∧ i.wCrop < 100 ∧ i.wMeat < 100) (b : K) :
+    (∀ x, Feasible (buildLP i .toAnimals) x → x .objective ≤ b) ↔
+    (∀ a, PhysFeasibleFeed i a → feedValue i a ≤ b) := by
+  constructor
+  · intro h a ha
+    obtain ⟨x, hx, -, hobj⟩ := complete_animals i a hw ha
+    rw [← hobj]; exact h x hx
+  · intro h x hx
+    obtain ⟨h1, h2⟩ := sound_animals i x hx
+    exact le_trans h2 (h _ h1)
+
+end Animals
+
+/-! ## non-vacuity of the feed-round specification -/
+
+/-- two months, SCP only (2 a month), ceilings 1 and 1, all of the SCP share may go to feed,
+    people pinned to 0 SCP -/
+def feedInst : Inp ℚ :=
+  { emptyInst with nmonths := 2, addScp := true, scp := [2, 2], feed := [1, 1], maxFeed := [1, 1],
+                   maxBiofuel := [1, 1], limScpF := 100, minScp := [0, 0] }
+
+def feedX : Var → ℚ
+  | .mv .scpFeed m => [1, 1].getD m 0
+  | .objective => 4 / 3
+  | _ => 0
+
+theorem feedX_rows : (buildLP feedInst .toAnimals).all (holdsB feedX) = true := by decide +kernel
+
+theorem feedX_nonneg : ∀ v, 0 ≤ feedX v := by
+  intro v
+  cases v with
+  | mv k m =>
+    cases k <;> first
+      | exact le_rfl
+      | exact getD_nonneg _ (by decide +kernel) m
+  | objective => show (0 : ℚ) ≤ 4 / 3; norm_num
+  | objectiveBest => exact le_rfl
+
+theorem feed_nonvacuous : ∃ (i : Inp ℚ) (a : Alloc ℚ), PhysFeasibleFeed i a ∧ 0 < feedValue i a := by
+  have hx : Feasible (buildLP feedInst .toAnimals) feedX :=
+    ⟨rows_hold_of_all _ _ feedX_rows, feedX_nonneg⟩
+  obtain ⟨h1, h2⟩ := sound_animals feedInst feedX hx
+  refine ⟨feedInst, allocOf feedX, h1, lt_of_lt_of_le ?_ h2⟩
+  show (0 : ℚ) < 4 / 3
+  norm_num
 
 end Allfed.Proofs.Completeness
